@@ -104,6 +104,7 @@ enum SigMode {
   OverOtherB64,
   ByOtherKey,
   ByEmbeddedKey,
+  Extended, // a valid signature followed by extra bytes
   Garbage,
   Truncated,
   Empty,
@@ -271,6 +272,7 @@ impl Gen<'_> {
       4 => SigMode::Garbage,
       5 => SigMode::Truncated,
       6 => SigMode::Empty,
+      7 => SigMode::Extended,
       _ => SigMode::Valid,
     };
     let (hdr_alg, b64) = if prot_missing { (None, None) } else { (hdr_alg, b64) };
@@ -340,6 +342,12 @@ fn sign_entry(rng: &mut Rng, e: &mut Entry, y: &[u8], raw_payload: &[u8]) {
         e.signer.sign(&good_input)
       }
     },
+    SigMode::Extended => {
+      let mut s = e.signer.sign(&good_input);
+      let extra = 1 + rng.usize(8);
+      s.extend(rng.bytes(extra));
+      s
+    }
     SigMode::Garbage => rng.bytes(64),
     SigMode::Truncated => {
       let mut s = e.signer.sign(&good_input);
@@ -700,6 +708,33 @@ impl Cx {
       let mut m = text.to_vec();
       m[pos] ^= 1 << bit;
       self.flip_case(t, idx, &m, t.detached.as_deref(), part, pos, bit);
+    }
+    // byte substitutions that are not single-bit flips: the standard-alphabet cousins of the two url-safe characters,
+    // padding, and a different alphabet character
+    for (part, start, len) in &regions {
+      for off in 0..*len {
+        let pos = start + off;
+        let subs: &[u8] = match text[pos] {
+          b'-' => b"+/=",
+          b'_' => b"/+=",
+          _ => {
+            if off % 7 == 0 {
+              b"+/=."
+            } else {
+              b""
+            }
+          }
+        };
+        for sub in subs {
+          if *sub == text[pos] {
+            continue;
+          }
+          let mut m = text.to_vec();
+          m[pos] = *sub;
+          self.rep.inc("byte_substitutions");
+          self.flip_case(t, idx, &m, t.detached.as_deref(), part, pos, 8);
+        }
+      }
     }
     // detached payload bits
     if let Some(d) = &t.detached {
